@@ -67,7 +67,7 @@ SEED_KEY["PYDOE_LHS"] = "random_state"
 # count == n_samples exactly
 EXACT_N = {*SCIPY, *OT_SAMPLING, "PYDOE_LHS", "DiagonalDOE"}
 MORRIS_INNER = ["PYDOE_LHS", "LHS", "MC", "Halton", "OT_LHS", "OT_MONTE_CARLO", "OT_SOBOL", "OT_LHSC"]
-NAMES = ["x", "y", "z", "ab", "k", "var", "x_1", "n1", "zz"]
+NAMES = ["y", "x", "k", "ab", "zz", "var", "x_1", "n1", "z"]  # index order is not the alphabetical one
 FREE_FLOAT = [(0.0, 1.0), (0.0, 1.0), (-1.0, 1.0), (-0.1, 0.7), (0.001, 0.002), (-1000.0, 1000.0), (5.5, 5.5), (-7.3, -7.1), (0.1, 0.3)]
 FREE_INT = [(0, 1), (0, 1), (-5, 5), (3, 3), (0, 100), (-1000, 1000), (-3, -1), (2, 7)]
 # SciPy's PoissonDisk allocates a grid of (sqrt(d)/radius)^d cells: minutes and gigabytes from d = 5 on
